@@ -477,7 +477,8 @@ def derived_limits(S, D):
     def line(vals):
         return scenario(10000, [chan(1, 100, 0, 2), chan(0, 101, 2, 1, cltv=70)], max_cltv=100 + 65536 * 40)
     over = limit + final_cltv.t > max_total.t
-    b = Binding('route_validity_probe', [z3.IntVal(1)], [None, z3.If(over, 1, 0)], parse=mask_bit(64), line_fn=line, via_solver=True, domain=[(1, 1)])
+    # (2048: with the budget too large the caller's own accounting underflows - a panic in the dev profile)
+    b = Binding('route_validity_probe', [z3.IntVal(1)], [None, z3.If(over, 1, 0)], parse=mask_bit(64 | 2048), line_fn=line, via_solver=True, domain=[(1, 1)])
     S.prove(ids[0], E, pre, z3.Not(over),
             'the CLTV budget the search works with plus the final hop\'s delta never exceeds the request\'s max_total_cltv_expiry_delta (so no returned path can)', [b],
             bounds='all u32 budgets / deltas; region of get_route from the allow_mpp branch to the budget\'s definition')
@@ -534,9 +535,11 @@ def merge_key(S, D):
         ok = ok and mentions(rv, hid) and mentions(rv, tgt)
 
     def line(vals):
-        # our two channels carry the same alias 100 (to A = node 2 and to B = node 3, 100 000 msat each); A and B each
-        # offer an unannounced channel with the same id 200 to the payee; 150 000 msat need both
-        return scenario(150000, [chan(1, 100, 0, 2, cap=100000), chan(1, 100, 0, 3, cap=100000), chan(2, 200, 2, 1), chan(2, 200, 3, 1)], max_paths=2, mpp=1)
+        # our two channels carry the same alias 7 (to A = node 2 with 100 000 msat, to B = node 6 with 200 000 msat); A and B
+        # each offer an unannounced channel with the same id 42 to the payee; 150 000 msat need both
+        # (nodes 2 and 6: their ids compare the same way with ours and with the payee's, so the per-direction channel ids
+        #  collide; the route hint through B charges 1000 ppm so that the merged path is the one through A)
+        return scenario(150000, [chan(1, 7, 0, 2, cap=100000), chan(1, 7, 0, 6, cap=200000), chan(2, 42, 2, 1, cltv=10), chan(2, 42, 6, 1, prop=1000, cltv=10)], max_paths=10, mpp=1)
     b = Binding('route_validity_probe', [z3.IntVal(1)], [None, z3.IntVal(0 if ok else 1)], parse=mask_bit(4 | 2048), line_fn=line, via_solver=True, domain=[(1, 1)])
     S.prove(ids[0], E, [], z3.BoolVal(ok),
             'the value compared hop by hop before two selected paths are merged contains both the hop\'s channel id and the node it leads to', [b],
